@@ -224,12 +224,124 @@ fn history(rng: &mut Rng) {
     emit(&format!("hist/{tag}"), &format!("Hist {} [{}]", z(t0), items.join("; ")));
 }
 
+
+// ---------------------------------------------------------------- liquidity market: mint / burn deferral
+use anchor_lang::prelude::{Account, AccountLoader, Pubkey};
+use anchor_lang::solana_program::program_pack::Pack;
+use anchor_spl::token::{spl_token, Mint};
+use gmsol_model::{LiquidityMarket, LiquidityMarketMut};
+use gmsol_store::states::{Market, Store};
+
+fn install_token_dispatcher() {
+    // a minimal stand-in for the token program: MintTo (7) / Burn (8) change the mint's supply
+    g9rt::set_dispatcher(Some(Box::new(|ix, infos, _seeds| {
+        if ix.program_id == anchor_spl::token::ID && ix.data.len() >= 9 {
+            let tag = ix.data[0];
+            let amount = u64::from_le_bytes(ix.data[1..9].try_into().unwrap());
+            let mint_key = match tag { 7 => ix.accounts[0].pubkey, 8 => ix.accounts[1].pubkey, _ => return Ok(()) };
+            for ai in infos {
+                if *ai.key == mint_key {
+                    let mut d = ai.try_borrow_mut_data()?;
+                    let cur = u64::from_le_bytes(d[36..44].try_into().unwrap());
+                    let new = if tag == 7 { cur.checked_add(amount) } else { cur.checked_sub(amount) }
+                        .ok_or(anchor_lang::solana_program::program_error::ProgramError::ArithmeticOverflow)?;
+                    d[36..44].copy_from_slice(&new.to_le_bytes());
+                }
+            }
+        }
+        Ok(())
+    })));
+}
+
+fn lm_history(rng: &mut Rng) {
+    let mut env = Env::new();
+    g9rt::set_clock(1, 1_700_000_000);
+    let k = env.add_market(1, 1, 2, 3, None, true);
+    let supply0: u64 = match rng.below(6) { 0 => 0, 1 => u64::MAX, 2 => u64::MAX - rng.below(1000), 3 => rng.below(1000), _ => rng.below(1 << 40) };
+    let mint_state = spl_token::state::Mint { mint_authority: Default::default(), supply: supply0, decimals: 9, is_initialized: true, freeze_authority: Default::default() };
+    let mut mint_data = vec![0u8; spl_token::state::Mint::LEN];
+    spl_token::state::Mint::pack(mint_state, &mut mint_data).unwrap();
+    let mint_i = env.arena.add(g9rt::key(7001), anchor_spl::token::ID, 1_000_000, &mint_data, false, true, false);
+    let tp_i = env.arena.add(anchor_spl::token::ID, Pubkey::default(), 1, &[], false, false, true);
+    let mut store: Box<Store> = gmsol_verif_harness::g9mk::zeroed_box::<Store>();
+    store.init(g9rt::key(7002), "", 255, g9rt::key(7003), g9rt::key(7004)).unwrap();
+    let store_i = env.arena.add(env.store, gmsol_store::ID, 1_000_000, &g9rt::zero_copy_data::<Store>(&store), false, false, false);
+    let recv_i = env.arena.add(g9rt::key(7005), anchor_spl::token::ID, 1_000_000, &[0u8; 165], false, true, false);
+    let vault_i = env.arena.add(g9rt::key(7006), anchor_spl::token::ID, 1_000_000, &[0u8; 165], false, true, false);
+    let _ = g9rt::take_invokes();
+    let n_ops = rng.range(2, 6);
+    let mut ops: Vec<String> = Vec::new();
+    let (mut commits, mut abandons) = (0, 0);
+    for _ in 0..n_ops {
+        let cur_supply = {
+            let d = env.arena.info(mint_i);
+            let b = d.try_borrow_data().unwrap();
+            u64::from_le_bytes(b[36..44].try_into().unwrap())
+        };
+        let n_acts = rng.below(7);
+        let mut acts: Vec<(u8, u128)> = vec![(2, 0)];
+        for _ in 0..n_acts {
+            let amt: u128 = match rng.below(10) {
+                0 => 0,
+                1 => u64::MAX as u128,
+                2 => u64::MAX as u128 + 1 + rng.below(5) as u128,
+                3 => (u64::MAX - cur_supply) as u128,
+                4 => (u64::MAX - cur_supply) as u128 + 1,
+                5 => cur_supply as u128,
+                6 => cur_supply as u128 + 1,
+                _ => rng.below(1 << 30) as u128,
+            };
+            acts.push((rng.below(3) as u8, amt));
+        }
+        let commit = rng.chance(1, 2);
+        let loader = env.loader(k);
+        let lref: &'static AccountLoader<'static, Market> = unsafe { &*(&loader as *const _) };
+        let mint_info = env.arena.info(mint_i);
+        let mint_info = env.refs.r(mint_info);
+        let mint_acc: Account<'static, Mint> = Account::try_from(mint_info).expect("mint account");
+        let mref: &'static Account<'static, Mint> = unsafe { &*(&mint_acc as *const _) };
+        let tp = { let i = env.arena.info(tp_i); env.refs.r(i) };
+        let store_info = { let i = env.arena.info(store_i); env.refs.r(i) };
+        let store_loader: AccountLoader<'static, Store> = AccountLoader::try_from(store_info).expect("store loader");
+        let sref: &'static AccountLoader<'static, Store> = unsafe { &*(&store_loader as *const _) };
+        let recv = { let i = env.arena.info(recv_i); env.refs.r(i) };
+        let vault = { let i = env.arena.info(vault_i); env.refs.r(i) };
+        let ev = env.ev_info();
+        let obs: Vec<String> = gmsol_store::verif_hooks_g4::with_revertible_liquidity_market_commit(
+            lref, mref, tp, sref, Some(recv), Some(vault), ev, 255, commit,
+            |m| {
+                acts.iter()
+                    .map(|(kind, amt)| match kind {
+                        0 => format!("(LMint {amt}, OCode {})", if m.mint(amt).is_ok() { 0 } else { 1 }),
+                        1 => format!("(LBurn {amt}, OCode {})", if m.burn(amt).is_ok() { 0 } else { 1 }),
+                        _ => format!("(LSupply, OVal {})", m.total_supply()),
+                    })
+                    .collect()
+            },
+        )
+        .unwrap();
+        drop(store_loader);
+        drop(mint_acc);
+        drop(loader);
+        let cpis: Vec<String> = g9rt::take_invokes()
+            .iter()
+            .filter(|ix| ix.program_id == anchor_spl::token::ID)
+            .map(|ix| format!("({}, {})", ix.data[0], u64::from_le_bytes(ix.data[1..9].try_into().unwrap())))
+            .collect();
+        if commit { commits += 1 } else { abandons += 1 }
+        ops.push(format!("LMOp [{}] {} [{}]", obs.join("; "), b(commit), cpis.join("; ")));
+    }
+    let tag = if commits > 0 && abandons > 0 { "mixed" } else if commits > 0 { "commit_only" } else { "abandon_only" };
+    emit(&format!("liquidity/{tag}"), &format!("LMHist {supply0} [{}]", ops.join("; ")));
+}
+
 fn main() {
     let a = args();
     silence_panics();
     g9rt::install();
+    install_token_dispatcher();
     let mut rng = Rng::new(a.seed);
-    for _ in 0..a.n {
-        history(&mut rng);
+    for i in 0..a.n {
+        if i % 4 == 3 { lm_history(&mut rng) } else { history(&mut rng) }
     }
 }
